@@ -500,12 +500,12 @@ theorem T_C12_tie_render (m : Mesh) : renderBy CBV.Gen.c12WriteSections m = some
 
 /-- `Mesh.backport` of the source, statement by statement (guard, the loop over `zip(blocks, assembled)` with the two
     `Face.update` calls, `clear()`, `assemble()`), is the model's `backport` -/
-theorem T_C12_tie_backport (m : Mesh) : backportBy (methodStmts "Mesh.backport") m = some (backport m) := by
-  have h : methodStmts "Mesh.backport" =
-      [("if not self.is_assembled:", ["    raise RuntimeError('Cannot backport non-assembled mesh')"]),
-       ("for block, op in zip(self.blocks, self.assembled):",
-        ["    vertices = [vertex.position for vertex in block.vertices]", "    op.bottom_face.update(vertices[:4])",
-         "    op.top_face.update(vertices[4:])"]),
+theorem T_C12_tie_backport (m : Mesh) : backportBy (CBV.Gen.c12S_Mesh_backport) m = some (backport m) := by
+  have h : CBV.Gen.c12S_Mesh_backport =
+      [("if not self.is_assembled:", ["    raise RuntimeError"]),
+       ("for v0, v1 in zip(self.blocks, self.assembled):",
+        ["    v2 = [v3.position for v3 in v0.vertices]", "    v1.bottom_face.update(v2[:4])",
+         "    v1.top_face.update(v2[4:])"]),
        ("self.clear()", []), ("self.assemble()", [])] := by decide
   rw [h]
   unfold backport
@@ -514,14 +514,14 @@ theorem T_C12_tie_backport (m : Mesh) : backportBy (methodStmts "Mesh.backport")
 /-- `Mesh.write` of the source (assemble when not assembled, `grade()` = the four statements of `Mesh.grade`, then the
     sections) is the model's `write`: same state afterwards, same file or error -/
 theorem T_C12_tie_write (m : Mesh) :
-    writeBy CBV.Gen.c12WritePre (methodStmts "Mesh.grade") CBV.Gen.c12WriteSections m = some (write m) := by
-  have hg : methodStmts "Mesh.grade" =
-      [("if not self.is_assembled:", ["    raise RuntimeError('Cannot grade a mesh before it is assembled')"]),
+    writeBy CBV.Gen.c12WritePre (CBV.Gen.c12S_Mesh_grade) CBV.Gen.c12WriteSections m = some (write m) := by
+  have hg : CBV.Gen.c12S_Mesh_grade =
+      [("if not self.is_assembled:", ["    raise RuntimeError"]),
        ("self.block_list.grade_blocks()", []), ("self.block_list.propagate_gradings()", []),
        ("self.block_list.check_consistency()", [])] := by decide
   have hp : CBV.Gen.c12WritePre =
       [("if not self.is_assembled:", ["    self.assemble()"]),
-       ("if debug_path is not None:", ["    write_vtk(debug_path, self.vertex_list.vertices, self.block_list.blocks)"]),
+       ("if v1 is not None:", ["    write_vtk(v1, self.vertex_list.vertices, self.block_list.blocks)"]),
        ("self.grade()", [])] := by decide
   rw [hg, hp]
   exact writeBy_eq m
@@ -531,32 +531,32 @@ theorem T_C12_tie_write (m : Mesh) :
     what the model mirrors; `is_assembled` looks at the vertex list; `Face.update` assigns the positions in order;
     `grade_blocks` resets every axis before grading -/
 theorem T_C12_tie_statements :
-    methodStmts "Mesh.delete" = [("self.deleted.add(operation)", [])] ∧
-    methodStmts "Mesh.add" = [("self.depot.append(entity)", [])] ∧
-    methodStmts "Mesh.is_assembled" = [("return len(self.vertex_list.vertices) > 0", [])] ∧
-    methodStmts "Mesh.add_geometry" = [("self.geometry_list.add(geometry)", [])] ∧
-    methodStmts "Mesh.modify_patch" = [("self.patch_list.modify(name, kind, settings)", [])] ∧
-    methodStmts "Mesh.set_default_patch" = [("self.patch_list.set_default(name, kind)", [])] ∧
-    methodStmts "Mesh.merge_patches" = [("self.patch_list.merge(master, slave)", [])] ∧
-    methodStmts "PatchList.modify" = [("patch = self.get(name)", []), ("patch.kind = kind", []),
-      ("if settings is not None:", ["    patch.settings = settings"]), ("self.modified.add(name)", [])] ∧
-    methodStmts "Face.update" = [("for i, point in enumerate(points):",
-      ["    self.points[i].position = np.array(point, dtype=constants.DTYPE)"])] ∧
-    methodStmts "BlockList.grade_blocks" = [("for block in self.blocks:", ["    for axis in block.axes:", "        axis.wires.reset()"]),
-      ("for block in self.blocks:", ["    block.grade()"])] ∧
-    (methodStmts "Mesh.assemble").head? = some ("for entity in self.depot:",
-      ["    if isinstance(entity, Operation):", "        operations = [entity]", "    else:",
-       "        operations = entity.operations", "    for operation in operations:",
-       "        if operation in self.deleted:", "            continue",
-       "        vertices = self._add_vertices(operation)",
-       "        block = Block(len(self.block_list.blocks), vertices)", "        if not skip_edges:",
-       "            for data in self.edge_list.add_from_operation(vertices, operation):",
-       "                block.add_edge(*data)", "        for axis in get_args(AxisType):",
-       "            for chop in operation.chops[axis]:", "                block.chop(axis, chop)",
-       "        block.cell_zone = operation.cell_zone", "        self.block_list.add(block)",
-       "        self.assembled.append(operation)", "        self.patch_list.add(vertices, operation)",
-       "        self.face_list.add(vertices, operation)", "    if entity.geometry is not None:",
-       "        self.add_geometry(entity.geometry)"]) ∧
+    CBV.Gen.c12S_Mesh_delete = [("self.deleted.add(v0)", [])] ∧
+    CBV.Gen.c12S_Mesh_add = [("self.depot.append(v0)", [])] ∧
+    CBV.Gen.c12S_Mesh_is_assembled = [("return len(self.vertex_list.vertices) > 0", [])] ∧
+    CBV.Gen.c12S_Mesh_add_geometry = [("self.geometry_list.add(v0)", [])] ∧
+    CBV.Gen.c12S_Mesh_modify_patch = [("self.patch_list.modify(v0, v1, v2)", [])] ∧
+    CBV.Gen.c12S_Mesh_set_default_patch = [("self.patch_list.set_default(v0, v1)", [])] ∧
+    CBV.Gen.c12S_Mesh_merge_patches = [("self.patch_list.merge(v0, v1)", [])] ∧
+    CBV.Gen.c12S_PatchList_modify = [("v3 = self.get(v0)", []), ("v3.kind = v1", []),
+      ("if v2 is not None:", ["    v3.settings = v2"]), ("self.modified.add(v0)", [])] ∧
+    CBV.Gen.c12S_Face_update = [("for v1, v2 in enumerate(v0):",
+      ["    self.points[v1].position = np.array(v2, dtype=constants.DTYPE)"])] ∧
+    CBV.Gen.c12S_BlockList_grade_blocks = [("for v0 in self.blocks:", ["    for v1 in v0.axes:", "        v1.wires.reset()"]),
+      ("for v0 in self.blocks:", ["    v0.grade()"])] ∧
+    CBV.Gen.c12S_Mesh_assemble.head? = some ("for v1 in self.depot:",
+      ["    if isinstance(v1, Operation):", "        v2 = [v1]", "    else:",
+       "        v2 = v1.operations", "    for v3 in v2:",
+       "        if v3 in self.deleted:", "            continue",
+       "        v4 = self._add_vertices(v3)",
+       "        v5 = Block(len(self.block_list.blocks), v4)", "        if not v0:",
+       "            for v6 in self.edge_list.add_from_operation(v4, v3):",
+       "                v5.add_edge(*v6)", "        for v7 in get_args(AxisType):",
+       "            for v8 in v3.chops[v7]:", "                v5.chop(v7, v8)",
+       "        v5.cell_zone = v3.cell_zone", "        self.block_list.add(v5)",
+       "        self.assembled.append(v3)", "        self.patch_list.add(v4, v3)",
+       "        self.face_list.add(v4, v3)", "    if v1.geometry is not None:",
+       "        self.add_geometry(v1.geometry)"]) ∧
     -- what `Mesh.__init__` creates: the state components of the model, and `settings`, which no call of a history touches
     CBV.Gen.c12InitAttrs.map (·.1) = ["depot", "deleted", "assembled", "vertex_list", "edge_list", "block_list",
       "patch_list", "face_list", "geometry_list", "settings"] := by
